@@ -119,6 +119,9 @@ type Sim struct {
 	simElapsed  time.Duration
 	mapRot      bool
 	abandoned   string
+	// Context, if set, is appended to failures raised by the simulator itself (task panic,
+	// fatal, stall) so that they carry the harness's history like oracle failures do.
+	Context func() string
 }
 
 // Abandon ends the run without a failure (e.g. an oracle that belongs to another
@@ -185,7 +188,14 @@ func (s *Sim) Fail(oracle, sig, format string, args ...any) {
 		if sig == "" {
 			sig = oracle
 		}
-		s.fail = &Failure{Oracle: oracle, Sig: sig, Message: fmt.Sprintf(format, args...), Step: s.Steps}
+		msg := fmt.Sprintf(format, args...)
+		if s.Context != nil && (oracle == "task-panic" || oracle == "fatal" || oracle == "stall") {
+			func() {
+				defer func() { recover() }()
+				msg += "\n" + s.Context()
+			}()
+		}
+		s.fail = &Failure{Oracle: oracle, Sig: sig, Message: msg, Step: s.Steps}
 	}
 	s.mu.Unlock()
 }
